@@ -1,6 +1,7 @@
 (* DataModel.v — executable model of src/database/query_language/data_model_parser.rs
    (DataModel::parse_internal / insert, Entity::add_field / insert_field, update_system, update,
-   update_with, Entity::update) and of GraphDatabase::update_data_model, AS THE CODE IS.
+   update_with, Entity::update), AS THE CODE IS (GraphDatabase::update_data_model: run_inst_obs in
+   run/Run_C15.v).
    No proofs here.
 
    Names are indices: namespaces 0 = "" (default namespace), 1 = "sys", k>=2 user namespaces;
@@ -29,7 +30,7 @@ Definition ftype_eqb (a b : ftype) : bool :=
 Definition is_ref (t : ftype) : bool := match t with TEnt _ _ | TArr _ _ => true | _ => false end.
 
 (* RESERVED_SHORT_NAMES *)
-Definition reserved : N := 32.
+Definition reserved : N := 33.
 
 Record field := mkF { f_name : N; f_short : N; f_type : ftype; f_default : option N;
                       f_nullable : bool; f_depr : bool }.
@@ -308,16 +309,4 @@ Fixpoint run_steps (M : dmodel) (steps : list step) (os : list oracle) : list (o
       let o := hd zero_oracle os in
       let '(M', e) := upd o (s_sys s) M (s_ver s) in
       (e, M') :: run_steps M' r (tl os)
-  end.
-
-(* GraphDatabase::update_data_model: the stored model replaces self.data_model, the new version is
-   applied to it in place, and the result is persisted only on success.  State: (stored, in memory).
-   (update_system(SYSTEM_DATA_MODEL) is the same text every time and is left out.) *)
-Fixpoint run_inst (stored : dmodel) (steps : list step) (os : list oracle) : list (option err * dmodel) :=
-  match steps with
-  | [] => []
-  | s :: r =>
-      let o := hd zero_oracle os in
-      let '(M', e) := upd o (s_sys s) stored (s_ver s) in
-      (e, M') :: run_inst (match e with None => M' | Some _ => stored end) r (tl os)
   end.
